@@ -234,7 +234,7 @@ func genSend(r *hv.Rand) {
 	// regression corpus: the original retransmission-timeout code dropped frames[0] once RTO > maxRTO
 	runSend("send-rto-outage", 0, 0, []sop{{kind: 'W', len: 5, a: 1}, {kind: 'T'}, {kind: 'T'}, {kind: 'T'}, {kind: 'T'}, {kind: 'T'}, {kind: 'T'}, {kind: 'T'}, {kind: 'A', ack: 2}}, true)
 
-	for k := 0; k < hv.Scale(200, 4000); k++ {
+	for k := 0; k < hv.Scale(200, 900); k++ {
 		class := hv.Pick(r, []string{"send-mixed", "send-mixed", "send-mixed", "send-rto-outage", "send-rto-outage", "send-dupacks", "send-dupacks", "send-wrap-2^32", "send-wrap-2^32", "send-big-writes"})
 		var sc []sop
 		var ack0 uint64
